@@ -268,6 +268,7 @@ func mayAuth(c *Conn) bool {
 
 //@ func (c *Conn) handleAuthenticate(tag string, dec *imapwire.Decoder) (err error)
 //@   ensures c.state == old(c.state) || (old(mayAuth(c)) && c.state == imap.ConnStateAuthenticated)
+//@   ensures c.state != old(c.state) ==> __called("Server.Next") && !__failed("Server.Next")
 
 //@ func (c *Conn) handleUnauthenticate(dec *imapwire.Decoder) (err error)
 //@   ensures c.state == old(c.state) || (old(authed(c)) && c.state == imap.ConnStateNotAuthenticated)
